@@ -104,6 +104,46 @@ def hostile_calls():
     return H
 
 
+def scale_hostile_calls():
+    """Hostile and valid content calls whose content takes boundary sizes
+    (a size-selected fast path must validate like the ordinary path)."""
+    from mc.alphabets import BOUNDARY_SIZES_Q, sized_text
+    R = 'raw'
+    H = []
+    for n in BOUNDARY_SIZES_Q:
+        t = sized_text(n, 'lines')
+        b = t.encode('ascii')
+        one = sized_text(n, 'one').encode('ascii')
+        H += [
+            ('big%d-diff-le-bogus' % n, 'diff', True,
+             [R, 'write_diff', [b], {'line_endings': 'bogus'}]),
+            ('big%d-diff-one-le-mac' % n, 'diff', True,
+             [R, 'write_diff', [one], {'line_endings': 'mac'}]),
+            ('big%d-diff-type' % n, 'diff', True,
+             [R, 'write_diff', [b], {'diff_type': 'patch'}]),
+            ('big%d-diff-valid' % n, 'diff', 'valid',
+             [R, 'write_diff', [b], {}]),
+            ('big%d-diff-valid-dos' % n, 'diff', 'valid',
+             [R, 'write_diff', [b.replace(b'\n', b'\r\n')],
+              {'line_endings': 'dos', 'diff_type': 'text'}]),
+            ('big%d-preamble-mimetype' % n, 'preamble', True,
+             [R, 'write_preamble', [t], {'mimetype': 'text/html'}]),
+            ('big%d-preamble-le' % n, 'preamble', True,
+             [R, 'write_preamble', [t], {'line_endings': 'mac'}]),
+            ('big%d-preamble-unencodable' % n, 'preamble', 'inorder',
+             [R, 'write_preamble', [t + '\u20ac\n'],
+              {'encoding': 'latin-1'}]),
+            ('big%d-preamble-valid' % n, 'preamble', 'valid',
+             [R, 'write_preamble', [t], {'indent': 2}]),
+            ('big%d-meta-format' % n, 'meta', True,
+             [R, 'write_meta', [{'k': ['v' * 50] * (n // 60 + 1)}],
+              {'meta_format': 'yaml'}]),
+            ('big%d-meta-valid' % n, 'meta', 'valid',
+             [R, 'write_meta', [{'k': ['v' * 50] * (n // 60 + 1)}], {}]),
+        ]
+    return H
+
+
 def model_next(prev, depth, kind):
     """(legal?, new prev, new depth) for a call that would write `kind`."""
     if kind in ('change', 'file'):
@@ -155,7 +195,8 @@ class Run(object):
                         tag, type(exc).__name__),
                     'call %r raised %r and changed the writer state'
                     % (call, exc)))
-            if must_raise is None and name is None and legal and \
+            if (must_raise == 'valid' or (must_raise is None and
+                                          name is None)) and legal and \
                     self._usable_encoding(call, kind):
                 self.viols.append((
                     'legal-call-rejected:%s-after-%s' % (kind, self.prev),
@@ -165,6 +206,8 @@ class Run(object):
         if not after.startswith(before) or len(after) <= len(before):
             self.viols.append(('accepted-call-not-append:%s' % tag,
                                'stream did not grow by appending'))
+        if must_raise == 'valid':
+            must_raise = None
         if must_raise is True or (must_raise == 'inorder' and legal):
             self.viols.append(('invalid-argument-accepted:%s' % tag,
                                'call %r was accepted after %s'
@@ -248,6 +291,9 @@ def plan(tier):
         hs = sorted(g['seen'].values(), key=lambda h: (len(h), repr(h)))
         for h in hs:
             units.append(('hostile', root, [list(c) for c in h]))
+    nsh = len(scale_hostile_calls())
+    for lo in range(0, nsh, 6):
+        units.append(('scale-hostile', 'utf-8', lo, min(lo + 6, nsh)))
     return {
         'units': units,
         'rule': '(a) every sequence over {new_change, new_file, '
@@ -256,7 +302,10 @@ def plan(tier):
                 'and the writer continues); (b) from every canonical state '
                 'of the closed writer graph %r every one of %d hostile '
                 'argument variants followed by every continuation of length '
-                '<= 2. Oracle: accepted <=> hierarchy automaton allows; a '
+                '<= 2; (c) content calls whose content takes boundary sizes '
+                '(1023..65537 bytes) with invalid options, unencodable text or '
+                'valid arguments, from 4 states with continuations of length '
+                '1. Oracle: accepted <=> hierarchy automaton allows; a '
                 'raising call leaves stream bytes and frozen vars(writer) '
                 'unchanged; the final stream/state equal those of a fresh '
                 'writer replaying only the accepted calls. Non-trivial: '
@@ -303,6 +352,38 @@ def run_unit(unit, tier):
             acc.outcome('ok' if not viols else 'violation')
         acc.sample({'sequence_prefix': [BASIC[i][0] for i in unit[2]]}
                    if unit[0] == 'seq' else {'short': True}, 1)
+    elif unit[0] == 'scale-hostile':
+        _, root, lo, hi = unit
+        H = scale_hostile_calls()
+        M = ['meta', {'a': 'x'}, None]
+        states = [[], [['change', None]],
+                  [['change', None], ['file', None], M],
+                  [['change', None], ['file', None], M,
+                   ['diff', b'a\n', None, None, None]]]
+        for hi_, (name, kind, must, call) in enumerate(H[lo:hi]):
+            for hist in states:
+                for cont in [()] + [(i,) for i in range(5)]:
+                    seq = [(c, None, None, None) for c in hist]
+                    seq.append((call, kind, must, name))
+                    seq.extend((BASIC[i], None, None, None) for i in cont)
+                    viols = replay_sequence(root, seq)
+                    acc.evals += 1
+                    acc.transitions += len(seq)
+                    acc.validated += 1
+                    acc.nontrivial += 1
+                    gname = name.split('-', 1)[1]
+                    for key, msg in viols:
+                        key = key.replace(name, 'big-' + gname)
+                        acc.violation(key, '%s\nhistory %r then %s then %r'
+                                      % (msg[:600], [c[:2] for c in hist],
+                                         name, [BASIC[i][0] for i in cont]),
+                                      {'kind': 'scale-hostile', 'root': root,
+                                       'hist': to_jsonable(hist),
+                                       'index': lo + hi_, 'name': name,
+                                       'cont': list(cont)})
+                    acc.outcome('ok' if not viols else 'violation')
+        acc.states = 1
+        acc.sample({'scale_hostile': [h[0] for h in H[lo:hi]]}, 1)
     else:
         _, root, hist = unit
         H = hostile_calls()
@@ -354,6 +435,15 @@ def replay(payload):
     if k == 'seq':
         seq = [(BASIC[i], None, None, None) for i in payload['seq']]
         viols = replay_sequence(payload['root'], seq)
+    elif k == 'scale-hostile':
+        H = scale_hostile_calls()
+        name, kind, must, call = H[payload['index']]
+        seq = [(c, None, None, None) for c in from_jsonable(payload['hist'])]
+        seq.append((call, kind, must, name))
+        seq.extend((BASIC[i], None, None, None) for i in payload['cont'])
+        gname = name.split('-', 1)[1]
+        viols = [(k_.replace(name, 'big-' + gname), m)
+                 for k_, m in replay_sequence(payload['root'], seq)]
     elif k == 'hostile':
         H = hostile_calls()
         name, kind, must, call = H[payload['hostile']]
